@@ -93,6 +93,8 @@ func failsOnFirstEvent(kind string) bool {
 	return kind == "sub-events-marshal-panic" || kind == "sub-unencodable"
 }
 
+var xopRe = regexp.MustCompile(`"xop":"([^"]*)"`)
+
 var lateErrRe = regexp.MustCompile(`X:late-error-of-op-(\d+)`)
 
 var opNameRe = regexp.MustCompile(`Op(\d+)`)
@@ -216,6 +218,14 @@ func Run(rc *core.RunCtx) {
 					// a value encoding/json refuses: this one payload cannot be sent
 					r.Extensions = map[string]any{"bad": math.NaN()}
 				}
+			}
+			// what the operation context says about request headers is echoed, so that a header
+			// that wandered from one operation to another shows
+			if h := graphql.GetOperationContext(ctx).Headers.Get("X-Op"); h != "" {
+				if r.Extensions == nil {
+					r.Extensions = map[string]any{}
+				}
+				r.Extensions["xop"] = h
 			}
 		}
 		return r
@@ -668,7 +678,15 @@ func Run(rc *core.RunCtx) {
 			wireOps[o.wire] = append(wireOps[o.wire], o)
 			var query string
 			var payloadExtra map[string]any
-			switch t.Choose(16, "opkind") {
+			switch t.Choose(17, "opkind") {
+			case 16:
+				// a "headers" member in the operation's payload (RawParams has one): whatever the
+				// server makes of it, it concerns this operation only
+				o.kind = "query-hdr"
+				o.echo = "h" + id
+				o.vars = map[string]any{"b": o.echo}
+				query = fmt.Sprintf("query Op%s($b: Blob!) { echo(b: $b) }", id)
+				payloadExtra = map[string]any{"variables": o.vars, "headers": map[string]any{"X-Op": []any{"h" + id}}}
 			case 15:
 				// the first payload of this subscription cannot be encoded by the transport
 				o.kind, o.isStream = "sub-unencodable", true
@@ -959,8 +977,12 @@ func Run(rc *core.RunCtx) {
 			if o == nil {
 				continue
 			}
+			if xo := xopRe.FindStringSubmatch(string(f.Payload)); xo != nil && xo[1] != "h"+o.id {
+				rc.Fail("result-not-its-own", "headers", "operation %s (%s) was executed with the X-Op header %q that another operation's payload carried\n%s", o.id, o.kind, xo[1], desc())
+				return
+			}
 			switch o.kind {
-			case "query", "mutation", "query-vars", "query-named":
+			case "query", "mutation", "query-vars", "query-named", "query-hdr":
 			case "sub-events":
 				// the k-th event: data and errors of its payload equal the reference evaluation of
 				// the subscription's selection on that event (paths inside an event do not carry
